@@ -99,3 +99,33 @@ PROPS["C03"] = dict(
                 quick=dict(workers=16, watchdog_s=900),
                 thorough=dict(workers=16, watchdog_s=900))],
 )
+
+PROPS["C09"] = dict(
+    level="exploration",
+    engine="hist+coop",
+    technique="deterministic simulation: seeded mutation/marshal histories on regenerated fast-marshal types against a fresh-copy oracle; concurrent readers under the invisible cooperative scheduler with the race detector",
+    design_ref="DESIGN.md 4.1, 4.2, 4.9, 5 (C09)",
+    level_text=("History part: seeded search over histories of field mutations, Size/Marshal/MarshalTo through generated methods, csproto and the owning runtime, "
+                "Unmarshal, Reset and Clone on every message type of the regenerated example corpus (87 types, three runtimes); every Marshal must equal - modulo "
+                "map-entry order - the same call on a brand-new struct holding the same contents, and must not panic. Schedule part: 2..N goroutines run drawn "
+                "scripts of Size/Marshal calls on one shared, unmutated message under a seeded scheduler with yields before every call and before every size-cache "
+                "atomic in the regenerated code; every result must equal the fresh-copy result and the race detector must stay silent. Sampling, not proof."),
+    level_note=("Trusted: protobuf-go's reflection (incl. its legacy wrapper for gogo structs) used to mutate, copy and digest messages; dynamicpb for map-order "
+                "canonicalisation; the regeneration pipeline (byte-identical to the checked-in files on the unchanged tree)."),
+    needs=["corpus"],
+    rule=("history test: one execution = one corpus type, drawn initial contents and a drawn history over {mutate, Size x3, Marshal x4 flavours, Unmarshal, Reset, Clone}; "
+          "non-trivial = at least one judged Marshal happened while the size cache was warm; coop test: one execution = one populated message shared by 2..N clients with drawn "
+          "scripts and schedule; non-trivial = at least one context switch and two judged observations; distinct = hash of type, contents, steps/scripts and schedule"),
+    real=["regenerated Size/Marshal/MarshalTo/Unmarshal of all example types", "csproto.Size/Marshal/Unmarshal/Clone/Reset", "gogo/protobuf and protobuf-go Size/Marshal", "goroutines, atomics, race detector"],
+    model=["choice of which goroutine runs", "fresh deep copy built field by field through protoreflect (oracle)"],
+    assumptions=["the corpus is the repository's example schemas regenerated with the Makefile's options; other schemas/options are input space (C04/C16)"],
+    tests=[dict(name="TestC09Hist", pkg="c09", race=False, mem_gb=16,
+                quick=dict(workers=16, checks=3000, steps=25, watchdog_s=900),
+                thorough=dict(workers=16, checks=200000, steps=30, watchdog_s=7200)),
+           dict(name="TestC09Coop", pkg="c09", race=True, params=dict(max_clients=4),
+                quick=dict(workers=16, checks=300, steps=25, watchdog_s=900),
+                thorough=dict(workers=16, checks=20000, steps=25, watchdog_s=7200, max_clients=16)),
+           dict(name="TestC09Coop", pkg="c09", race=False, mem_gb=16, id="TestC09Coop.norace", params=dict(max_clients=8),
+                quick=dict(workers=8, checks=1000, steps=25, watchdog_s=900),
+                thorough=dict(workers=16, checks=100000, steps=25, watchdog_s=7200, max_clients=64))],
+)
